@@ -782,7 +782,7 @@ func (g *gen) ctxset() TNode {
 	case 0:
 		n.Src = strconv.Itoa(g.r.Rng.Intn(60) - 10)
 	case 1:
-		q := pick(g.r, []string{`"`, `"`, `'`}) // both quote characters make a literal
+		q := pick(g.r, []string{`"`, `"`, `'`})                            // both quote characters make a literal
 		n.Src = q + pick(g.r, []string{"lit", "a b", "Q", "si", "x1"}) + q // (also texts that are names of variables)
 	default:
 		p := g.anyPath()
